@@ -117,7 +117,7 @@ package drpcstream
 //@   site (*Signal).Set assert [nonnil-set] arg1 != nil
 //@   props C03
 //@   requires held(s.mu.Mutex)
-//@   ensures [noop] true
+//@   ensures [C03.both] old(sSend(s)) && old(sRecv(s)) ==> sTerm(s)
 
 // terminate: all three signals are set (first setter wins, so earlier values stay), the packet
 // buffer is closed, and the finished check runs.
@@ -185,6 +185,7 @@ package drpcstream
 //@   ghost after:(*Stream).sendPacketLocked sent = sent + 1
 //@   site (*Stream).sendPacketLocked assert [C03.closesend-packet] !wasSend && !wasTerm && arg1 == drpcwire.KindCloseSend && !arg2 && arg3 == nil && held(s.write.Mutex)
 //@   site (*inspectMutex).Lock#2 assert [C04.leaf-mu] !held(s.mu.Mutex)
+//@   check [C03.both-closed-terminates] !wasSend && !wasTerm && old(sRecv(s)) ==> sTerm(s)
 //@   check [C03.idempotent]     wasSend || wasTerm ==> sent == 0 && err == nil
 //@   check [C03.emits-once]     !(wasSend || wasTerm) ==> sent == 1
 //@   check [C03.finished-check] eventAfterLast("unlock:storj.io/drpc/drpcstream.Stream.write", "call:(*Stream).checkFinished")
@@ -260,6 +261,11 @@ package drpcstream
 //@   let m = ite(s.opts.SplitSize == 0, 65536, ite(s.opts.SplitSize < 0, 0, s.opts.SplitSize))
 //@   ghost entry emitted = 0
 //@   ghost entry frames = 0
+//@   ghost loop:1 sendOpen = false
+//@   ghost loop:1 termOpen = false
+//@   ghost after:(*Signal).IsSet#1 sendOpen = !ret
+//@   ghost after:(*Signal).IsSet#2 termOpen = !ret
+//@   site (*Writer).WriteFrame assert [C03.checked-before-every-frame] sendOpen && termOpen
 //@   ghost after:(*Writer).WriteFrame emitted = emitted + len(arg1.Data)
 //@   ghost after:(*Writer).WriteFrame frames = frames + 1
 //@   site (*Writer).WriteFrame assert [C01.frame-id]   arg1.ID.Stream == s.id.Stream && arg1.ID.Message == old(s.id.Message) + 1 && arg1.Kind == kind0 && !arg1.Control
